@@ -90,7 +90,7 @@ theorem cut_inv {f : Forest} (hi : f.Inv) {c : Nat} {path l C r} (lc : Loc f.roo
     (hcut : f.CutOK c) : ({ f with roots := plug path (l ++ r) } : Forest).Inv := by
   obtain ⟨k1, k2⟩ := hi.kids_at lc.eq
   apply hi.edit (handles C) lc.eq
-  · simp only [fi_handlesList_append, handlesList_cons, List.append_assoc]
+  · simp only [fi_handlesList_append, fi_handlesList_cons, List.append_assoc]
     exact List.Perm.append_left _ List.perm_append_comm
   · cases hiv : innerValue path with
     | none => rfl
@@ -141,7 +141,7 @@ theorem Inv.place {g g' : Forest} (hi : g.Inv) (hi' : g'.Inv) {t : HTree}
     (hperm : (g'.allHandles ++ handles t).Perm g.allHandles)
     (hc : g'.corrupt = g.corrupt) (hn : g'.next = g.next) (he : g'.everOff = g.everOff)
     (hco : g'.consolidation = g.consolidation)
-    {path' : List Frame} {ks ks' : List HTree} (hroots : g'.roots = plug path' ks)
+    {path' : List ZipFrame} {ks ks' : List HTree} (hroots : g'.roots = plug path' ks)
     (hks : (handlesList ks').Perm (handlesList ks ++ handles t))
     (hk : kidsOKopt (!g.everOff) (innerValue path') ks' = true)
     (hl : validList (!g.everOff) ks' = true) : ({ g' with roots := plug path' ks' } : Forest).Inv := by
@@ -203,7 +203,7 @@ theorem checkedAppend_inv {g : Forest} (hi : g.Inv) {p c : Nat} {cv pv : Value}
       refine K0.insert (by rw [htv]; exact kidAllowed_of_parent hpk hcn hcd) ?_ (by simp) (Or.inl (by rw [htv]; exact hcn)) ?_
       · intro y _
         simp only [rankOf, htv, hcn, Category.rank]
-        exact rank_le_two _
+        exact fi_rank_le_two _
       · intro hs htt
         refine ⟨?_, rfl⟩
         apply lastText_rk
@@ -246,7 +246,7 @@ theorem checkedPrepend_inv {g : Forest} (hi : g.Inv) {p c : Nat} {cv pv : Value}
     obtain ⟨k1, k2⟩ := hi'.kids_at hroots2
     rw [h3] at k1 k2
     apply hi.place hi' hperm h1 h2 h3 h4 hroots2
-    · simp only [List.nil_append, handlesList_cons]
+    · simp only [List.nil_append, fi_handlesList_cons]
       exact List.perm_append_comm
     · rw [innerValue_snoc] at k1 ⊢
       refine (kidsOK_iff _ _ _).mpr ?_
@@ -306,7 +306,7 @@ theorem checkedInsertAfter_inv {g : Forest} (hi : g.Inv) {ref c : Nat} {cv sv : 
     have hfin : rk c lr ++ rb c S :: t :: rk c rr = (rk c lr ++ [rb c S]) ++ t :: rk c rr := by simp
     rw [hfin]
     apply hi.place hi' hperm h1 h2 h3 h4 hroots
-    · simp only [fi_handlesList_append, handlesList_cons, handlesList_nil, List.append_nil, List.append_assoc]
+    · simp only [fi_handlesList_append, fi_handlesList_cons, fi_handlesList_nil, List.append_nil, List.append_assoc]
       refine List.Perm.append_left _ (List.Perm.append_left _ ?_)
       exact List.perm_append_comm
     · cases hiv : innerValue (cutPath c path) with
@@ -325,7 +325,7 @@ theorem checkedInsertAfter_inv {g : Forest} (hi : g.Inv) {ref c : Nat} {cv sv : 
         refine K1.insert (by rw [htv]; exact kidAllowed_of_parent hpk hcn hcd) ?_ ?_ (Or.inl (by rw [htv]; exact hcn)) ?_
         · intro y _
           simp only [rankOf, htv, hcn, Category.rank]
-          exact rank_le_two _
+          exact fi_rank_le_two _
         · intro y hy
           obtain ⟨z, hz, e1, _⟩ := mem_rk hy
           have := hright _ hctx0 z hz
@@ -368,7 +368,7 @@ theorem checkedInsertBefore_inv {g : Forest} (hi : g.Inv) {ref c : Nat} {cv sv :
     obtain ⟨k1, k2⟩ := hi'.kids_at hroots
     rw [h3] at k1 k2
     apply hi.place hi' hperm h1 h2 h3 h4 hroots
-    · simp only [fi_handlesList_append, handlesList_cons, List.append_assoc]
+    · simp only [fi_handlesList_append, fi_handlesList_cons, List.append_assoc]
       refine List.Perm.append_left _ ?_
       refine List.perm_append_comm.trans ?_
       simp only [List.append_assoc]
@@ -388,7 +388,7 @@ theorem checkedInsertBefore_inv {g : Forest} (hi : g.Inv) {ref c : Nat} {cv sv :
         refine K0.insert (by rw [htv]; exact kidAllowed_of_parent hpk hcn hcd) ?_ ?_ (Or.inl (by rw [htv]; exact hcn)) ?_
         · intro y _
           simp only [rankOf, htv, hcn, Category.rank]
-          exact rank_le_two _
+          exact fi_rank_le_two _
         · intro y hy
           rw [List.mem_cons] at hy
           rcases hy with hy | hy
